@@ -20,6 +20,7 @@ T = [
  ("arithw2", "{ e(Y) } :- pe(Y).\n:~ item(X), pick(X+1), e(X). [X*2@1,X]", {}),
  ("arithw3", "{ e(Y) } :- pe(Y).\n#minimize { X+1,Y : p(X+2,Y), e(Y) }.", {}),
  ("condw", "{ p(A,W) } :- pp(A,W).\nload(A,S) :- g(A), S = #sum { W : p(A,W) }.\nheavy(A) :- load(A,S), S > 2.\n:~ g(A), ok : load(A,S), S < 2. [1@1,A]", {}),
+ ("condweak", "{ a(X) : d(X) }.\nload(P,S) :- person(P), S = #sum { W,X : a(X), w(P,X,W) }.\ntotal(T) :- T = #sum { S,P : load(P,S) }.\n:~ person(P), ok(P) : load(P,S), S < 3. [1@2,P]", {"universe_pos": {"w/3": [["0", "1"], ["0", "1"], ["1", "2"]]}}),
  ("chainw", "{ e(Y) } :- pe(Y).\n:~ e(S), d(D), b(B), S = D < B. [1@1,S]", {}),
  ("chainw2", "{ e(Y) } :- pe(Y).\n:~ e(X), 0 < X < 2. [1@1,X]", {}),
  ("dupw", "{ e(Y) } :- pe(Y).\n:~ e(X), f(X), g(X,Y). [Y@1,X]\n:~ e(X), f(X), h(X). [1@2,X]", {}),
